@@ -218,6 +218,14 @@ def gen(seed, V, tier, index, bias=None):
                 ev = E.gen_calc(rng, V, tbl=rng.choice([t, t, "public"]), which=rng.choice(
                     ["nscat", "xsld", "volume", "mass", "activation", "list", "emission_table", "d2o_match", "d2o_sld",
                      "composite", "formula_methods"]), pool=pool)
+        elif fam["pickler"] and r < 0.95 and rng.random() < 0.3:
+            # a pickled Formula of T travels instead of a single atom
+            msg += 1
+            s = rng.choice(["H2O", "Fe{2+}O{2-}", "CaCO3+6H2O", "D2O", "NaCl // H2O", "Ni[58]{3+}Cl3", "Gd[155]2O3"])
+            if "mass" not in pred.tprops.get(t, ()) and "[" in s:
+                s = "Fe{2+}O{2-}"
+            extra.append(["dump_formula", msg, t, s, rng.choice([0, 2, 4, 5])])
+            ev = ["load", msg, t, ["formula", s]]
         elif fam["pickler"] and r < 0.95:
             msg += 1
             at = V.atom(rng)
